@@ -318,6 +318,19 @@ pub fn derive_inputs(thorough: bool) -> Vec<String> {
         let vs: Vec<String> = seq.iter().enumerate().map(|(i, f)| variant_form(*f, &format!("V{i}"))).collect();
         bodies.push((format!("{{W}} {{ {} }}", vs.join(", ")), true));
     }
+    // long bodies: the field / variant forms in rotation (every starting offset) at 6, 9, 17 members
+    for n in [6usize, 9, 17] {
+        for off in 0..FIELD_FORMS.len() {
+            let named: Vec<String> = (0..n).map(|i| { let f = FIELD_FORMS[(off + i) % FIELD_FORMS.len()]; format!("{}{}x{i}: {}", f.0, f.1, f.2) }).collect();
+            bodies.push((format!("{{W}} {{ {} }}", named.join(", ")), false));
+            let unnamed: Vec<String> = (0..n).map(|i| { let f = FIELD_FORMS[(off + i) % FIELD_FORMS.len()]; format!("{}{}{}", f.0, f.1, f.2) }).collect();
+            bodies.push((format!("({}){{W}};", unnamed.join(", ")), false));
+        }
+        for off in 0..N_VARIANT_FORMS {
+            let vs: Vec<String> = (0..n).map(|i| variant_form((off + i) % N_VARIANT_FORMS, &format!("V{i}"))).collect();
+            bodies.push((format!("{{W}} {{ {} }}", vs.join(", ")), true));
+        }
+    }
     let mut out = vec![];
     for (body, is_enum) in &bodies {
         for (gi, (g, w)) in GENERICS.iter().enumerate() {
